@@ -3,6 +3,7 @@ package main
 import (
 	"fmt"
 	"go/ast"
+	"go/token"
 	"strings"
 )
 
@@ -44,6 +45,260 @@ func extractInterop(p *pkgs, f *facts) {
 			return true
 		})
 	}
-	f.lean = append(f.lean, fmt.Sprintf("def interop : Interop.Params := ⟨%s, %s⟩", leanBool(dflt), leanBool(refused)))
-	f.set("interop", map[string]interface{}{"defaultAllowedNetrpcOnly": dflt, "reattachMuxRefused": refused})
+	autoAtStart, autoJS := autoTLSAtStart(p)
+	dialsTLS, dialJS := hostDialsUseTLSConfig(p)
+	checkDflt, checkJS := allowedCheckCoversDefault(p)
+	f.lean = append(f.lean, fmt.Sprintf("def interop : Interop.Params := ⟨%s, %s, %s, %s, %s⟩", leanBool(dflt), leanBool(refused),
+		leanBool(autoAtStart), leanBool(dialsTLS), leanBool(checkDflt)))
+	f.set("interop", map[string]interface{}{"defaultAllowedNetrpcOnly": dflt, "reattachMuxRefused": refused,
+		"autoTlsAtStart": autoAtStart, "autoTlsAtStartWhy": autoJS, "dialsUseTlsConfig": dialsTLS, "dialsUseTlsConfigWhy": dialJS,
+		"allowedCheckCoversDefault": checkDflt, "allowedCheckCoversDefaultWhy": checkJS})
+}
+
+// autoTLSAtStart: `Client.Start` installs the AutoMTLS configuration itself, before the
+// plugin is launched, whenever AutoMTLS is on — independent of what the plugin answers.
+//
+// Accepted shape (anything else = false):
+//   - exactly one TOP-LEVEL statement of Start is `if <recv>.config.AutoMTLS { … }` (that exact
+//     condition, no init, no else), and it comes before the statement that launches the plugin
+//     (the first top-level statement calling RunnerFunc( / NewCmdRunner( / .Start( of the runner)
+//     and after the `c.reattach()` return (so it governs every launching Start);
+//   - a DIRECT child statement of that block (not nested under a further condition or loop) is
+//     `<recv>.config.TLSConfig = X` where X resolves to a tls.Config composite literal
+//     (address-of, through a local variable or one helper level);
+//   - every statement of the block before that assignment either is not an `if`, or is an `if`
+//     whose body ends in a return of a non-nil error (the error exits) — so reaching the end
+//     of the block means the assignment ran;
+//   - nowhere in the package is a `.TLSConfig` assigned `nil`, and no other assignment to
+//     `<recv>.config.TLSConfig` in Start follows the block (which could undo it).
+func autoTLSAtStart(p *pkgs) (bool, map[string]interface{}) {
+	js := map[string]interface{}{}
+	st := p.fn("Client", "Start")
+	if st == nil || recvName(st) == "" {
+		js["reason"] = "Client.Start not found"
+		return false, js
+	}
+	r := recvName(st)
+	list := st.Body.List
+	launch := -1
+	for _, needle := range []string{"RunnerFunc(", "NewCmdRunner(", "runner.Start("} {
+		if i := firstStmtWith(list, needle); i >= 0 && (launch < 0 || i < launch) {
+			launch = i
+		}
+	}
+	reattach := firstStmtWith(list, r+".reattach()")
+	blockIdx, nBlocks := -1, 0
+	for i, s := range list {
+		if is, ok := s.(*ast.IfStmt); ok && is.Init == nil && exprString(is.Cond) == r+".config.AutoMTLS" {
+			nBlocks++
+			blockIdx = i
+			if is.Else != nil {
+				nBlocks += 100
+			}
+		}
+	}
+	js["autoMTLSBlocks"], js["blockIndex"], js["launchIndex"], js["reattachIndex"] = nBlocks, blockIdx, launch, reattach
+	if nBlocks != 1 || launch < 0 || reattach < 0 || !(reattach < blockIdx && blockIdx < launch) {
+		js["reason"] = "no single top-level `if " + r + ".config.AutoMTLS` block between the reattach return and the launch"
+		return false, js
+	}
+	blk := list[blockIdx].(*ast.IfStmt).Body
+	assigned := -1
+	for i, s := range blk.List {
+		as, ok := s.(*ast.AssignStmt)
+		if !ok || as.Tok != token.ASSIGN || len(as.Lhs) != 1 || len(as.Rhs) != 1 {
+			continue
+		}
+		if exprString(as.Lhs[0]) == r+".config.TLSConfig" && resolveTLS(p, st, as.Rhs[0], 2) != nil {
+			assigned = i
+		}
+	}
+	if assigned < 0 {
+		js["reason"] = "the AutoMTLS block does not itself assign a tls.Config to " + r + ".config.TLSConfig"
+		return false, js
+	}
+	for _, s := range blk.List[:assigned] {
+		switch x := s.(type) {
+		case *ast.IfStmt:
+			if x.Else != nil || !blockReturnsNonNilErr(x.Body) {
+				js["reason"] = "a conditional before the assignment can skip it"
+				return false, js
+			}
+		case *ast.ForStmt, *ast.RangeStmt, *ast.SwitchStmt, *ast.TypeSwitchStmt, *ast.SelectStmt, *ast.ReturnStmt, *ast.BranchStmt, *ast.LabeledStmt, *ast.GoStmt, *ast.DeferStmt:
+			js["reason"] = "control flow before the assignment"
+			return false, js
+		}
+	}
+	// nothing may undo it
+	undone := 0
+	for _, fd := range allFuncs(p) {
+		ast.Inspect(fd.Body, func(m ast.Node) bool {
+			as, ok := m.(*ast.AssignStmt)
+			if !ok {
+				return true
+			}
+			for i, lh := range as.Lhs {
+				if !strings.HasSuffix(exprString(lh), ".TLSConfig") {
+					continue
+				}
+				if len(as.Rhs) == len(as.Lhs) && exprString(as.Rhs[i]) == "nil" {
+					undone++
+				}
+				if fd == st && as.Pos() > blk.End() {
+					undone++
+				}
+			}
+			return true
+		})
+	}
+	js["laterOrNilAssignments"] = undone
+	if undone != 0 {
+		js["reason"] = "TLSConfig is reassigned after the block or set to nil somewhere"
+		return false, js
+	}
+	return true, js
+}
+
+// hostDialsUseTLSConfig: every host dial path hands config.TLSConfig to the transport.  The
+// individual facts are those of the C12 extractor (extractTLS), evaluated on a scratch store.
+func hostDialsUseTLSConfig(p *pkgs) (bool, map[string]interface{}) {
+	scratch := &facts{js: map[string]interface{}{}}
+	extractTLS(p, scratch)
+	out := map[string]interface{}{}
+	tj, _ := scratch.js["tls"].(map[string]interface{})
+	wrap, _ := tj["tlsWrap"].(map[string]bool)
+	ok := wrap != nil
+	for _, k := range []string{"rpcDialWrapped", "grpcDialCreds", "hostBrokerTls", "brokerDialCreds", "brokerMuxDialCreds"} {
+		out[k] = wrap[k]
+		ok = ok && wrap[k]
+	}
+	return ok, out
+}
+
+
+// allowedCheckCoversDefault: in Client.Start the comparison of <recv>.protocol with
+// AllowedProtocols also covers the protocol DEFAULTED for a four-field line.
+//
+// Accepted shape (anything else = false): the statement list L that contains, as a direct
+// child, the single assignment `<recv>.protocol = ProtocolNetRPC` also contains, as a LATER
+// direct child (hence not inside the `if len(parts) >= 5 { … }` that reads the field), a
+// refusal `if C { … return <non-nil err> }` where either
+//
+//	(a) C mentions both AllowedProtocols and <recv>.protocol, negated
+//	    (`!slices.Contains(c.config.AllowedProtocols, c.protocol)`), or
+//	(b) C is `!X`, X is declared `X := false` as a direct child of L after the default, and a
+//	    `for … range <recv>.config.AllowedProtocols` that is a direct child of L between the
+//	    default and the refusal sets `X = true` under a comparison with <recv>.protocol;
+//
+// and every other assignment to <recv>.protocol in Start precedes the refusal.
+func allowedCheckCoversDefault(p *pkgs) (bool, map[string]interface{}) {
+	js := map[string]interface{}{}
+	st := p.fn("Client", "Start")
+	if st == nil || recvName(st) == "" {
+		js["reason"] = "Client.Start not found"
+		return false, js
+	}
+	r := recvName(st)
+	proto := r + ".protocol"
+	var lists [][]ast.Stmt
+	ast.Inspect(st.Body, func(n ast.Node) bool {
+		switch b := n.(type) {
+		case *ast.BlockStmt:
+			lists = append(lists, b.List)
+		case *ast.CaseClause:
+			lists = append(lists, b.Body)
+		case *ast.CommClause:
+			lists = append(lists, b.Body)
+		}
+		return true
+	})
+	isDefault := func(s ast.Stmt) bool {
+		as, ok := s.(*ast.AssignStmt)
+		return ok && as.Tok == token.ASSIGN && len(as.Lhs) == 1 && len(as.Rhs) == 1 && exprString(as.Lhs[0]) == proto && exprString(as.Rhs[0]) == "ProtocolNetRPC"
+	}
+	var L []ast.Stmt
+	di, nDefaults := -1, 0
+	for _, l := range lists {
+		for i, s := range l {
+			if isDefault(s) {
+				nDefaults++
+				L, di = l, i
+			}
+		}
+	}
+	js["defaults"] = nDefaults
+	if nDefaults != 1 {
+		js["reason"] = "no single `" + proto + " = ProtocolNetRPC`"
+		return false, js
+	}
+	refusal := -1
+	for j := di + 1; j < len(L) && refusal < 0; j++ {
+		is, ok := L[j].(*ast.IfStmt)
+		if !ok || is.Init != nil || !blockReturnsNonNilErr(is.Body) {
+			continue
+		}
+		ue, ok := is.Cond.(*ast.UnaryExpr)
+		if !ok || ue.Op != token.NOT {
+			continue
+		}
+		c := exprString(ue.X)
+		if strings.Contains(c, "AllowedProtocols") && strings.Contains(c, proto) {
+			refusal = j
+			js["shape"] = "direct: " + c
+			break
+		}
+		x, ok := ue.X.(*ast.Ident)
+		if !ok {
+			continue
+		}
+		declared, set := false, false
+		for k := di + 1; k < j; k++ {
+			switch y := L[k].(type) {
+			case *ast.AssignStmt:
+				if y.Tok == token.DEFINE && len(y.Lhs) == 1 && len(y.Rhs) == 1 && exprString(y.Lhs[0]) == x.Name && exprString(y.Rhs[0]) == "false" {
+					declared = true
+				}
+			case *ast.RangeStmt:
+				if !strings.HasSuffix(exprString(y.X), ".config.AllowedProtocols") || !declared {
+					continue
+				}
+				ast.Inspect(y.Body, func(m ast.Node) bool {
+					ii, ok := m.(*ast.IfStmt)
+					if !ok || !strings.Contains(exprString(ii.Cond), proto) || !strings.Contains(exprString(ii.Cond), "==") {
+						return true
+					}
+					if assignsTrue(ii.Body, x.Name) {
+						set = true
+					}
+					return true
+				})
+			}
+		}
+		if declared && set {
+			refusal = j
+			js["shape"] = "loop setting " + x.Name
+		}
+	}
+	if refusal < 0 {
+		js["reason"] = "no refusal on AllowedProtocols in the statement list of the net/rpc default (after it)"
+		return false, js
+	}
+	// no assignment to c.protocol after the refusal
+	late := 0
+	ast.Inspect(st.Body, func(m ast.Node) bool {
+		if as, ok := m.(*ast.AssignStmt); ok {
+			for _, lh := range as.Lhs {
+				if exprString(lh) == proto && as.Pos() > L[refusal].Pos() {
+					late++
+				}
+			}
+		}
+		return true
+	})
+	js["protocolAssignedAfterCheck"] = late
+	if late != 0 {
+		js["reason"] = proto + " is assigned after the check"
+		return false, js
+	}
+	return true, js
 }
